@@ -161,7 +161,7 @@ func RunSoloScript(r sim.Src, mons []*sim.Mon, keepLog bool, sh SoloShape) *Solo
 	for i := 0; i < steps && len(s.W.Viols) == 0 && !nd.Crashed; i++ {
 		s.W.Step = i + 1
 		d := nd.D
-		switch pick(r, "step", 14, 10, 14, 14, 14, 6, 6, 8, 4, 4, 8, 4, 4) {
+		switch pick(r, "step", 14, 10, 14, 14, 14, 6, 6, 8, 4, 4, 8, 4, 4, 3) {
 		case 0: // advance the clock
 			dt := tpb * time.Duration(1+r.Intn("dt", 40)) / 20
 			if r.Intn("fine", 3) == 0 {
@@ -169,7 +169,7 @@ func RunSoloScript(r sim.Src, mons []*sim.Mon, keepLog bool, sh SoloShape) *Solo
 			}
 			s.Advance(dt)
 		case 1: // fire the timer when due (or force it)
-			if nd.Timer.Pending && nd.Active() {
+			if nd.Timer.Pending && nd.Active() && nd.Timer.D < 50*365*24*time.Hour { // (a deadline beyond the year 2262 is outside the clock range of the contract)
 				s.Fire()
 				out.Classes["timeout"]++
 			}
@@ -272,6 +272,29 @@ func RunSoloScript(r sim.Src, mons []*sim.Mon, keepLog bool, sh SoloShape) *Solo
 					}
 					out.Classes["commit_before_own_proposal"]++
 				}
+			}
+		case 13: // view climb: every peer asks for the next view, again and again - the node is carried through dozens of
+			// views whose timeouts grow beyond anything a clock difference could be (seeded change C14m: the timer of a
+			// high view computed from the absolute clock reading)
+			if o := s.Others(); len(o) > 0 && !d.BlockSent() && !d.CommitSent() && !d.PreCommitSent() {
+				top := 0
+				for k := 1 + r.Intn("climb", 40); k > 0 && int(d.ViewNumber) < 60 && !nd.Crashed && !d.BlockSent(); k-- {
+					v := d.ViewNumber
+					for _, j := range o {
+						if d.ViewNumber != v {
+							break
+						}
+						nd.Receive(s.CV(j, v, v+1))
+					}
+					if d.ViewNumber == v {
+						break
+					}
+					top = int(d.ViewNumber)
+				}
+				if top >= 28 {
+					out.Classes["view_climb_ge_28"]++
+				}
+				out.Classes["view_climb"]++
 			}
 		default: // the clock steps back
 			if sh.ClockSteps {
@@ -642,6 +665,20 @@ func RunNestedRecovery(r sim.Src, mons []*sim.Mon, keepLog bool) *sim.World {
 // traffic of the round, in any order (responses before the proposal they answer, commits before
 // everything).  It must stay silent (MonC13) in every state this reaches.
 func RunWatchOnlySolo(r sim.Src, mons []*sim.Mon, keepLog bool) *sim.World {
+	return runPastSolo(r, mons, keepLog, true)
+}
+
+// RunRestartedSolo is the same situation without the flag: a *validator restarted with empty state* whose peers
+// still hold and relay what its index sent in its previous life - its own proposal for a view it is the primary of,
+// its own responses, change views, pre-commits and commits, directly or inside recovery messages, in any order - while it
+// takes part again.  Such a node may find itself the primary of a view it entered through a recovery message, holding
+// its own old commit and no proposal (seeded change C10m).  Only monitors that judge the node's own obligations
+// (timer, panics) are attached: what it says may contradict its previous life (known finding D11).
+func RunRestartedSolo(r sim.Src, mons []*sim.Mon, keepLog bool) *sim.World {
+	return runPastSolo(r, mons, keepLog, false)
+}
+
+func runPastSolo(r sim.Src, mons []*sim.Mon, keepLog bool, flagged bool) *sim.World {
 	n := 1 + pick(r, "N", 5, 5, 5, 45, 10, 10, 20)
 	self := r.Intn("self", n)
 	tpb := []time.Duration{time.Second, 5 * time.Second}[r.Intn("tpb", 2)]
@@ -672,11 +709,15 @@ func RunWatchOnlySolo(r sim.Src, mons []*sim.Mon, keepLog bool) *sim.World {
 	if r.Intn("dyn", 4) == 0 {
 		cfg.MaxTimePerBlock = tpb * 3
 	}
-	s := sim.NewSolo(cfg, r, self, true, mons, keepLog)
+	s := sim.NewSolo(cfg, r, self, flagged, mons, keepLog)
 	if amev >= 0 {
 		s.W.Stat("amev")
 	}
 	nd := s.N
+	if !flagged {
+		nd.Faulty = true // restarted with empty state: faulty by the properties' own terms as far as its statements go
+		s.W.Stat("restarted_solo")
+	}
 	for i := r.Intn("ntx", 4); i > 0; i-- {
 		nd.AddTx(s.W.NewTx(false))
 	}
@@ -760,6 +801,9 @@ func RunWatchOnlySolo(r sim.Src, mons []*sim.Mon, keepLog bool) *sim.World {
 			}
 		case 3:
 			if nd.Timer.Pending {
+				if !flagged && nd.D.IsPrimary() && !nd.D.RequestSentOrReceived() && (nd.D.CommitSent() || nd.D.PreCommitSent()) {
+					s.W.Stat("restarted_primary_times_out_with_own_old_commit")
+				}
 				s.Fire()
 			} else {
 				nd.Timeout(s.H(), s.V()) // the application may still call it
